@@ -15,6 +15,8 @@ type TyGen struct {
 	Modes    map[string]ast.Mode
 	MaxDepth int
 	NoShifts bool
+	Acyclic  bool // names refer to earlier definitions only (finite types)
+	hidden   map[string]bool
 	labelSeq int
 	Feat     map[string]int
 }
@@ -53,7 +55,7 @@ func (g *TyGen) ModeWord(m ast.Mode) string {
 func (g *TyGen) namesOfMode(m ast.Mode) []string {
 	var c []string
 	for _, n := range g.Names {
-		if g.Modes[n] == m {
+		if g.Modes[n] == m && !g.hidden[n] {
 			c = append(c, n)
 		}
 	}
@@ -169,7 +171,16 @@ func (g *TyGen) Env(n int, prefix string) []*ast.Decl {
 		mine = append(mine, nm)
 	}
 	var decls []*ast.Decl
+	if g.Acyclic {
+		g.hidden = map[string]bool{}
+		for _, nm := range mine {
+			g.hidden[nm] = true
+		}
+	}
 	for i, nm := range mine {
+		if i > 0 && g.Acyclic {
+			g.hidden[mine[i-1]] = false
+		}
 		m := g.Modes[nm]
 		var body *ast.Ty
 		if i > 0 && g.Chance(15, "alias") {
@@ -192,6 +203,9 @@ func (g *TyGen) Env(n int, prefix string) []*ast.Decl {
 			}
 		}
 		decls = append(decls, &ast.Decl{Kind: ast.DType, Name: nm, Ty: body})
+	}
+	if g.Acyclic && len(mine) > 0 {
+		g.hidden[mine[len(mine)-1]] = false
 	}
 	g.Annotate(decls)
 	return decls
